@@ -3448,7 +3448,8 @@ static CK_RV SymDecryptUpdate(Session* session, CK_BYTE_PTR pEncryptedData, CK_U
 		// There must always be one block left in padding mode if next operation is DecryptFinal.
 		// To guarantee that one byte is removed in padding mode when the number of blocks is calculated.
 		size_t paddingAdjustByte = cipher->getPaddingMode() ? 1 : 0;
-		int nrOfBlocks = (ulEncryptedDataLen + remainingSize - paddingAdjustByte) / blockSize;
+		size_t available = ulEncryptedDataLen + remainingSize;
+		size_t nrOfBlocks = (available >= paddingAdjustByte) ? (available - paddingAdjustByte) / blockSize : 0;
 		maxSize = nrOfBlocks * blockSize;
 	}
 	if (!cipher->checkMaximumBytes(ulEncryptedDataLen))
@@ -3556,7 +3557,7 @@ static CK_RV SymDecryptFinal(Session* session, CK_BYTE_PTR pDecryptedData, CK_UL
 		}
 		// It is at least one padding byte. If no padding the all remains will be returned.
 		size_t paddingAdjustByte = cipher->getPaddingMode() ? 1 : 0;
-		size = remainingSize - paddingAdjustByte;
+		size = (remainingSize >= paddingAdjustByte) ? remainingSize - paddingAdjustByte : 0;
 	}
 
 	// Give required output buffer size.
